@@ -157,6 +157,15 @@ func (n *Net) enqueue(from *Party, m *protocol.Message) {
 	}
 }
 
+// Release puts a message that OnEmit held back into the network (OnEmit is not consulted again).
+func (n *Net) Release(from *Party, m *protocol.Message) {
+	saved := n.OnEmit
+	n.OnEmit = nil
+	from.Emitted--
+	n.enqueue(from, m)
+	n.OnEmit = saved
+}
+
 // Inject adds a raw delivery.
 func (n *Net) Inject(d *Delivery) {
 	n.seq++
